@@ -7,7 +7,7 @@ from ..core import unhx, hx
 THEOREMS = ['lost_output_fails', 'sink_holds_prefix', 'complete_output_unchanged', 'direct_writes_fail']
 LEVEL = 'proof'
 RULE = ('every report command with the output sink failing from byte offset k, for every k in 0..len (small reports) or sampled k incl. the '
-        '4096-byte buffer boundary (large reports); the real binary with stdout on /dev/full and on a closed pipe; bufio.Writer model vs bufio; '
+        '4096-byte buffer boundary (large reports); logs with a food name longer than the buffer (direct writes); the real binary with stdout on /dev/full and on a closed pipe; bufio.Writer model vs bufio; '
         'non-trivial = k strictly inside the report; distinct by (command, input hash, k)')
 ASSUMPTIONS = ['SIGPIPE delivery and ENOSPC are exercised only by the real-binary runs']
 
@@ -42,6 +42,13 @@ def gen(g, count, dense):
             continue
         log = g.log(book=book, exact=True, days=2 if not big else 40, max_entries=3 if not big else 10, dates=None, unusual=0.1)
         log[0] = (__import__('datetime').date(2021, 1, 24), log[0][1] or [(b'a/b', g.qty_exact())], log[0][2])
+        if n % 3 == 1:
+            # a row longer than the 4096-byte buffer (bufio hands it to the sink directly), first or later in the report
+            long_name = b'a/' + b'x' * r.choice([4100, 5000, 8300, 12000])
+            at = r.choice([0, 0, len(log) - 1])
+            ents = list(log[at][1])
+            ents.insert(0 if r.random() < 0.6 else len(ents), (long_name, g.qty_exact()))
+            log[at] = (log[at][0], ents, log[at][2])
         files = base_files(g, book, log)
         for path, args, s in CMDS:
             kind = ' '.join(path + list(s))
